@@ -131,11 +131,51 @@ def atoms_of(E, c):
     return ("?",)
 
 
+# ----------------------------------------------------------------------------- the atoms as the property reads them
+def atom_pairs(cj, at):
+    """(JSON atom, built atom) pairs of one condition in program order: the tree of comparison objects has the shape of
+    the JSON condition (`==` is ~(!=))"""
+    if at[0] == "?":
+        return
+    k = cj[0]
+    if k in ("cmp", "truth"):
+        x = at
+        while x[0] == "not":
+            x = x[1]
+        yield cj, x
+    elif k == "not":
+        yield from atom_pairs(cj[1], at[1])
+    else:
+        yield from atom_pairs(cj[1], at[1])
+        yield from atom_pairs(cj[2], at[2])
+
+
+def atom_operands(cj, kind):
+    """the two operand expressions of one JSON atom: a comparison compares its two sides, `with expr:` compares expr
+    with 0; a bit test (`(x & m) != 0`, for which the generator has the JSET instruction: kind 'bits') tests x against m"""
+    if cj[0] == "truth":
+        ja, jb = dsl.expand(cj[1]), ["c", 0]
+    else:
+        ja, jb = dsl.expand(cj[2]), dsl.expand(cj[3])
+    if kind == "bits":
+        e = jb if dsl.fold_int(ja) is not None else ja          # the other side is the plain int 0
+        if e[0] == "&":
+            ja, jb = e[1], e[2]
+    return ja, jb
+
+
+def atom_psigned(cj, kind, fm):
+    """PROPERTY-LEVEL: the comparison is a signed one iff the property types one of its operands signed (dsl.psigned on
+    the program text; never the `signed` attribute of the objects the implementation built)"""
+    ja, jb = atom_operands(cj, kind)
+    return dsl.psigned(ja, fm) or dsl.psigned(jb, fm)
+
+
 # ----------------------------------------------------------------------------- shape-level classes (mirror of Ebv.Gen.CondClass)
 def width_of(E, v):
     """the width flag calculate(None, None) yields"""
     if isinstance(v, E.Register):
-        return bool(v.long)
+        return dsl.reg_long(v)
     if isinstance(v, E.Constant):
         return not (-0x80000000 <= v.value < 0x100000000)
     if isinstance(v, E.Unary):
@@ -145,14 +185,17 @@ def width_of(E, v):
     return width_of(E, v.left)
 
 
-def atom_info(E, l, r):
+def atom_info(E, l, r, sg):
+    """what SimpleComparison.compare has to decide for the operand objects l, r of a comparison whose signedness is sg.
+    sg is handed in: the class predicates and the oracle's precondition pass the property-level `atom_psigned`; only the
+    mirror of the theorem's precondition (c03.theorem_pre, a statement about the objects as built) passes the objects' own"""
     from .props import c01
     l_long = width_of(E, l)
     r_imm = bool(r.small_constant)
-    want = True if ((l.signed or r.signed) and l_long) else None
+    sg = bool(sg)
+    want = True if (sg and l_long) else None
     r_width = want if want is not None else width_of(E, r)
     r_long = (not r_imm) and (c01.ret_long(E, r, True) if want else width_of(E, r))
-    sg = bool(l.signed or r.signed)
     return dict(l_long=l_long, r_imm=r_imm, want=want, r_width=r_width, r_long=r_long, sg=sg,
                 short=sg and not l_long and not r_long, widen=sg and not l_long and r_long)
 
@@ -160,7 +203,7 @@ def atom_info(E, l, r):
 def narrow_leaf(E, v):
     """the operand mentions a value of at most 4 bytes (variable format or w/sw view): makes W = 32"""
     if isinstance(v, E.Register):
-        return not v.long
+        return not dsl.reg_long(v)
     if isinstance(v, E.Constant):
         return False
     if isinstance(v, E.Unary):
@@ -176,12 +219,12 @@ def const_left_32(E, v, w):
 
 
 def is_short_reg(E, v):
-    return isinstance(v, E.Register) and not v.long
+    return isinstance(v, E.Register) and not dsl.reg_long(v)
 
 
-def atom_classes(E, l, r):
+def atom_classes(E, l, r, sg):
     from .props import c01
-    a = atom_info(E, l, r)
+    a = atom_info(E, l, r, sg)
     out = set()
     if (not a["short"]) and ((is_short_reg(E, l) and not a["widen"]) or (not a["r_imm"] and is_short_reg(E, r))):
         out.add("narrow-reg-in-64")
@@ -195,15 +238,12 @@ def atom_classes(E, l, r):
     return out
 
 
-def shape_classes(E, at):
-    k = at[0]
-    if k == "atom":
-        return atom_classes(E, at[3], at[4])
-    if k == "not":
-        return shape_classes(E, at[1])
-    if k in ("and", "or"):
-        return shape_classes(E, at[1]) | shape_classes(E, at[2])
-    return set()
+def shape_classes(E, at, cj, fm):
+    """classes of one condition: per atom, with the property-level signedness of the atom as written"""
+    out = set()
+    for aj, a in atom_pairs(cj, at):
+        out |= atom_classes(E, a[3], a[4], atom_psigned(aj, a[1], fm))
+    return out
 
 
 def prog_classes(built):
@@ -211,9 +251,9 @@ def prog_classes(built):
     from .props import c01
     E = built.E
     out = set()
-    for j, at, flags in built.cobjs:
-        out |= shape_classes(E, at) | flags
     fm = {n: f for n, f, _ in built.prog["vars"]}
+    for j, at, flags in built.cobjs:
+        out |= shape_classes(E, at, j, fm) | flags
     sets = [s for s in flat_stmts(built.cprog["body"]) if s[0] == "set"]
     for st, obj, fl in zip(sets, built.objs, built.flags):
         out |= c01.stmt_classes(E, st, obj, fm, fl)
@@ -499,4 +539,18 @@ def gen_owners(rng):
     b = [setk()] if rng.random() < 0.8 else [marks.bit()]
     use = rng.choice([["set", ["v", "mk2"], ["r", k]], form_stmt("if", ["cmp", ">", ["r", k], ["c", 1]], [marks.bit()], None)])
     prog["body"] = [form_stmt(form, c, a, b), use, marks.bit()]
+    return prog
+
+
+def gen_typing(rng):
+    """one comparison whose signedness is decided by an operator rule (dsl.typed_operand) against a constant or a leaf"""
+    prog = base_cprog(rng, kinds=rng.choice(["l", "lg"]))
+    marks = Marks()
+    kinds = [k for k in dsl.LEAF_KINDS if k != "c"]
+    a = dsl.typed_operand(rng, prog)
+    b = ["c", rng.choice(COND_CONSTS)] if rng.random() < 0.6 else dsl.pick_leaf(rng, prog, rng.choice(kinds))
+    if rng.random() < 0.2:
+        a, b = b, a
+    c = ["truth", a] if (a[0] != "c" and rng.random() < 0.1) else ["cmp", rng.choice(CMP_NAMES), a, b]
+    prog["body"] = [marks.bit(), form_stmt(rng.choice(FORMS), c, [marks.bit()], [marks.bit()]), marks.bit()]
     return prog
